@@ -437,7 +437,7 @@ def e2e_case(ctx: Ctx):
             # the statement holds for every option set: vary switches that change which other stages run
             "opts": rng.choice([[], [], ["--drop_globals"], ["-M"], ["-t"], ["--disable_tb"],
                                 ["--drop_globals", "-t"]]),
-            "doc": rng.choice([None, None, "ns", "ms"])}
+            "doc": rng.choice([None, None, "ns", "ms"]), "default_after": rng.random() < 0.5}
 
 
 def run_e2e(case):
@@ -460,6 +460,20 @@ def run_e2e(case):
             r = stage.e2e([f"--freq={_freq_arg(fr)}:1100", "--keep_prep", *case.get("opts", [])],
                           {"trace_rank_0.json": doc})
         res.append(r)
+    if case.get("default_after"):
+        # a history: the same job recorded at the tool's DEFAULT frequency, analysed WITHOUT --freq in the same process
+        # after the two runs above (which named their frequency explicitly)
+        rk3 = scenario.Rank(0, 1000.0, case["host_epoch"], case["dev_epoch"])
+        for i, s in enumerate(case["slices"]):
+            name = s["prefix"] + (KW[s["ptype"]] if s["ptype"] < 4 else "") + s.get("tail", "")
+            rk3.dev_event(name, 100 + s["ptype"], s["ts5"])
+        for a, b in case["host"]:
+            rk3.host_event("AIU Roundtrip", 77, a, b)
+        inp3 = rk3.event_list()
+        with contextlib.redirect_stdout(io.StringIO()):
+            r3 = stage.e2e(["--keep_prep", *case.get("opts", [])], {"trace_rank_0.json": copy.deepcopy(inp3)})
+        r3["_inp"] = inp3
+        res.append(r3)
     return inp, res
 
 
@@ -503,6 +517,22 @@ def oracle_e2e(case, inp, res):
         if not _close(o2["dur"], Fraction(o1["dur"]) / k, TOL) or \
                 not _close(o2["ts"], Fraction(o1["ts"]) + Fraction(o1["dur"]) - Fraction(o1["dur"]) / k, TOL):
             return ("c06-scaling", f"exported slice {uid}: ts/dur at k*f = {o2['ts']}/{o2['dur']}, at f = {o1['ts']}/{o1['dur']}")
+    if len(res) == 3:
+        b3, e3 = {}, {}
+        for e in res[2]["_inp"]:
+            a = e.get("attr", e.get("args"))
+            (b3 if e["ph"] == "B" else e3)[a["uid"]] = e
+        for uid, b in b3.items():
+            a, o = b.get("attr"), outs[2].get(uid)
+            if a is None or o is None:
+                continue
+            pair = stmt_pair(b["name"])
+            ts_in = [int(a[f"TS{i}"], 0) if isinstance(a[f"TS{i}"], str) else int(a[f"TS{i}"]) for i in range(1, 6)]
+            delta = (ts_in[pair[1]] - ts_in[pair[0]]) % (1 << 32)
+            if not _close(o["dur"], Fraction(delta) / 1000, TOL):
+                return ("c06-dur", f"run without --freq after runs with --freq {f} and {f * k} in the same process: exported slice "
+                                   f"{uid} '{b['name']}' has dur {o['dur']} != (TS{pair[1]+1}-TS{pair[0]+1})/1000 MHz = "
+                                   f"{float(Fraction(delta) / 1000)}")
     return None
 
 
